@@ -206,6 +206,18 @@ class _Hoist(ast.NodeTransformer):
 
     def visit_Call(self, node):
         self.generic_visit(node)
+        # operator.methodcaller('m', *a)(x)  ->  x.m(*a);  operator.attrgetter('a')(x) -> x.a;  operator.itemgetter(k)(x) -> x[k]
+        if isinstance(node.func, ast.Call) and len(node.args) == 1 and not node.keywords:
+            inner = node.func
+            nm = inner.func.attr if isinstance(inner.func, ast.Attribute) else (inner.func.id if isinstance(inner.func, ast.Name) else None)
+            if nm == 'methodcaller' and inner.args and isinstance(inner.args[0], ast.Constant) and isinstance(inner.args[0].value, str):
+                return ast.Call(func=ast.Attribute(value=node.args[0], attr=inner.args[0].value, ctx=ast.Load()),
+                                args=list(inner.args[1:]), keywords=list(inner.keywords))
+            if nm == 'attrgetter' and len(inner.args) == 1 and isinstance(inner.args[0], ast.Constant) and isinstance(inner.args[0].value, str) \
+                    and '.' not in inner.args[0].value:
+                return ast.Attribute(value=node.args[0], attr=inner.args[0].value, ctx=ast.Load())
+            if nm == 'itemgetter' and len(inner.args) == 1:
+                return ast.Subscript(value=node.args[0], slice=inner.args[0], ctx=ast.Load())
         # f([x for ...])  ->  f((x for ...))  for callables that only iterate their argument once
         if node.args and isinstance(node.args[0], ast.ListComp) and (
                 (isinstance(node.func, ast.Name) and node.func.id in self._CONSUMERS)
@@ -1062,6 +1074,12 @@ class Summarizer:
                 s2 = st.fork()
                 for t, pol in g:
                     s2.guards.append(self.guard(t if pol else neg_ast(t)))
+                if isinstance(vv, (ast.ListComp, ast.SetComp, ast.DictComp)):
+                    # `return [] if c else [comprehension]`: each arm is what the statement form would have returned
+                    sym = self.new_cell(f'<ret{s.lineno}>', self._EMPTY[type(vv)], s2, s)
+                    self.expand_comp(sym, vv, s2, s)
+                    self.emit('return', sym.id, s2, s, rhs=sym)
+                    continue
                 self.emit('return', canon(vv), s2, s, rhs=vv)
             self.npaths += 1
             return []
